@@ -131,7 +131,8 @@ def main():
   rep.assumptions += ["value sets of the qtools types are defined in QTools/Types.v (fixed: code*2^-frac with two's-complement range; "
                       "po2: +-2^e with e in get_exp's range, plus 0 for gate outputs; ternary/binary by kind)",
                       "np.log2/math.ceil on max_value and np.ceil(np.log2(n)) are modelled by exact integer functions"]
-  return rep.finish(vlib.TRUSTED_COMMON + ["model QTools/Ops.v is a hand transcription; tie = exhaustive comparison of every rule output with the implementation over the operand lattice"])
+  return rep.finish(vlib.TRUSTED_COMMON + ["translator tools/translate/qtoolsops.py regenerates coq/gen/QToolsOps.v (multiplier / accumulator / adder classes, factory tables, get_exp, quantizer conversion); Link/QToolsLink.v proves it equal to QTools/Ops.v",
+                                          "model QTools/Ops.v is a hand transcription; tie = exhaustive comparison of every rule output with the implementation over the operand lattice"])
 
 
 if __name__ == "__main__":
